@@ -146,6 +146,7 @@ var c17Roots = []c17Root{
 	{"top", "r:t", "top/r:t"},
 	{"top", "r\xc3\xa9\xff", "top/r\xc3\xa9\xff"},
 	{"top/root", "../missing/../root", "top/root"},
+	{"top", "r\x00t", "top/r\x00t"}, // a NUL byte in the root
 }
 
 var (
